@@ -183,10 +183,10 @@ func run(maxPrefix, freeOps int) {
 	}
 }
 
-// ZZ_C04_rotation: chain depth <= 2 + two free operations (quick); depth <= 3 and three free operations (thorough).
+// ZZ_C04_rotation: rotation prefix <= 1 + two free operations (quick); prefix <= 2 + three free operations (thorough, ~93k paths).
 func ZZ_C04_rotation() {
 	if zz.Thorough() {
-		run(3, 3)
+		run(2, 3)
 	} else {
 		run(1, 2)
 	}
